@@ -142,8 +142,10 @@ class EBB3:
 
         if len(ebb_version_string) > 1:
             ebb_version_string = ebb_version_string[1]
-        else:
-            return # ebb_version_string is not a reasonable version number.
+        else: # ebb_version_string is not a reasonable version number.
+            self.version = None
+            self.version_parsed = None
+            return
 
         ebb_version_string = ebb_version_string.strip()  # Stripped copy, for number comparisons
         self.version = ebb_version_string
@@ -256,6 +258,7 @@ class EBB3:
             error_msg += f"Firmware {self.MIN_VERSION_STRING} or newer is required.\n"
             error_msg += "Visit https://bantam.tools/ndfw to update your firmware."
             self.record_error(error_msg)
+            self.disconnect() # Close the port; this board cannot be used.
             return False
 
         # Special command to enter "future" syntax mode, before using self.command for everything.
@@ -280,6 +283,8 @@ class EBB3:
             parsed_version_string = parse(version_string)
         except InvalidVersion:
             return None
+        if self.version_parsed is None:
+            return None # EBB firmware version is not known.
         if self.version_parsed >= parsed_version_string:
             return True
         return False
